@@ -447,14 +447,30 @@ func ruleHashKill(c *Ctx, r *Rep) {
 			copyAlloc, _ = st.Addr.(*ssa.Alloc)
 		}
 	}
+	// the marshalling site: json.Marshal in the method itself, or a module helper that marshals its parameter
 	var marshal *ssa.Call
+	helper := ""
 	for _, ci := range callsIn(h) {
 		if calleeFullName(ci) == "encoding/json.Marshal" {
 			marshal = ci.(*ssa.Call)
 		}
 	}
+	if marshal == nil {
+		for _, ci := range callsIn(h) {
+			f := ci.Common().StaticCallee()
+			if f == nil || !c.InModule(f) || len(f.Params) != 1 {
+				continue
+			}
+			for _, ci2 := range callsIn(f) {
+				if calleeFullName(ci2) == "encoding/json.Marshal" && unwrapIface(ci2.Common().Args[0]) == ssa.Value(f.Params[0]) {
+					marshal = ci.(*ssa.Call)
+					helper = c.FuncKey(f)
+				}
+			}
+		}
+	}
 	if copyAlloc == nil || marshal == nil {
-		r.Undecided("shape:"+fk, c.FnPos(h), "receiver copy or json.Marshal not found")
+		r.Undecided("shape:"+fk, c.FnPos(h), "receiver copy or the json.Marshal of it not found")
 		return
 	}
 	// what is marshalled: the copy itself
@@ -462,7 +478,7 @@ func ruleHashKill(c *Ctx, r *Rep) {
 	if u, ok := unwrapIface(marshal.Call.Args[0]).(*ssa.UnOp); ok && u.X == ssa.Value(copyAlloc) {
 		okIn = true
 	}
-	r.Check(okIn, "hash-input-is-the-copy|"+fk, c.Pos(marshal.Pos()), "json.Marshal(c) of the blanked copy", marshal.Call.Args[0].String())
+	r.Check(okIn, "hash-input-is-the-copy|"+fk, c.Pos(marshal.Pos()), "json.Marshal(c) of the blanked copy"+map[bool]string{true: " (through " + helper + ")", false: ""}[helper != ""], marshal.Call.Args[0].String())
 	// the bytes hashed are exactly those
 	var jsonBytes ssa.Value
 	for _, ref := range *marshal.Referrers() {
@@ -475,11 +491,10 @@ func ruleHashKill(c *Ctx, r *Rep) {
 		cc := ci.Common()
 		if cc.IsInvoke() && cc.Method.Name() == "Write" && typeIs(cc.Value.Type(), "hash", "Hash") {
 			wrote = true
-			r.Check(cc.Args[0] == jsonBytes, "hashed-bytes|"+fk, c.Pos(ci.Pos()), "the hash is fed the marshalled bytes themselves (no decode/re-encode in between)", cc.Args[0].String())
+			r.Check(cc.Args[0] == jsonBytes, "hashed-bytes|"+fk, c.Pos(ci.Pos()), "the hash is fed the marshalled bytes themselves", cc.Args[0].String())
 		}
 	}
 	if !wrote {
-		// the hashing may be delegated; then no json.Unmarshal may sit between
 		r.Bad("hashed-bytes|"+fk, c.FnPos(h), "hash.Write(json bytes) in the hashing method", "not found")
 	}
 	for f := range c.Graph().Reach(h) {
